@@ -245,7 +245,7 @@ func properties() map[string]*Property {
 	}
 	ps["C04"] = &Property{ID: "C04", Level: "proof",
 		Jobs:  nil,
-		Extra: []string{"fp-tables", "fp-equiv"},
+		Extra: []string{"fp-tables", "fp-equiv", "fp-equiv-loops"},
 		Assume: []string{
 			"A-strconv: Go 1.23.5 strconv.ParseFloat is correctly rounded (the property names it as the oracle); the reference is the verbatim copy of eisel_lemire.go / decimal.go / atof.go under /verif/ref/strconv (SHA256SUMS checked against GOROOT when present)",
 		},
